@@ -208,7 +208,7 @@ class DataCase(object):
 
     # ------------------------------------------------------------ frame
     def frame(self, rng, decoys=True, shuffle='interleave', id_style=None,
-              extra_rows=0):
+              extra_rows=0, cov_first=False):
         kn = self.key_names
         blocks = []
         style = id_style or self.id_style
@@ -219,6 +219,13 @@ class DataCase(object):
             # another dtype that converts to the same string
             return str(self.labels[i])
         for i, k in enumerate(self.keys):
+            if cov_first:
+                # (baseline characteristics are recorded before the first
+                # sample: the covariate rows open the individual's records)
+                for cname, val in self.cov_rows(k):
+                    blocks.append([{kn['id']: lab(i), kn['time']: np.nan,
+                                    kn['obs']: cname,
+                                    kn['value']: float(val)}])
             for o in range(self.n_out):
                 t, v = self.meas[k][o]
                 blocks.append([{kn['id']: lab(i), kn['time']: float(tt),
@@ -253,7 +260,7 @@ class DataCase(object):
                                {kn['id']: lab(i), kn['time']: np.nan,
                                 kn['obs']: self.obs_names[0],
                                 kn['value']: 1.234}])
-            for cname, val in self.cov_rows(k):
+            for cname, val in ([] if cov_first else self.cov_rows(k)):
                 blocks.append([{kn['id']: lab(i), kn['time']: np.nan,
                                 kn['obs']: cname, kn['value']: float(val)}])
             if self.has_doses and k not in self.combined:
@@ -460,7 +467,14 @@ def posterior_case(ctx, rng, idx):
         # default covariate name: the explicit mapping decides
         case.cov_decoy_names = ['Cov. %d' % (j + 1) for j in range(h.n_cov)]
     feats['decoy_named_like_default_covariate'] = bool(case.cov_decoy_names)
-    df = case.frame(rng, shuffle=shuffle)
+    # a plain dataset in a quarter of the cases: nothing but the modelled
+    # observables and the covariates, the covariate rows first
+    plain = rng.random() < (0.7 if (
+        case.n_out == 1 and not case.map_explicit and leaves is not None
+        and h.n_cov) else 0.2)
+    feats['plain_dataset_covariates_first'] = plain
+    df = case.frame(rng, shuffle=shuffle, decoys=not plain,
+                    cov_first=plain)
     ctx.case(('sbml' if case.sbml else 'toy',
               '+'.join(feats.get('population_code', ['-'])),
               min(case.n_ids, 3), case.id_style, case.has_doses,
